@@ -939,6 +939,48 @@ fn duplicate_matrix(sh: &mut Shard) {
     sh.exhaustive("duplicate definitions: 7 declarations x 4 neighbours of another suffix x 4 scope pairs x with / without statements in between");
 }
 
+/// Records (and whole arrays) used where a value is needed, on BOTH sides of a construct that compares two expressions with
+/// each other (so that "the two sides have the same type" cannot stand in for "the operands are values"): SELECT CASE rec /
+/// CASE rec, CASE rec TO rec, rec = rec, array = array. Each program must be rejected, or run without Type mismatch.
+fn record_value_programs(sh: &mut Shard) {
+    const HEAD: &str = "TYPE ZT\n  ZA AS INTEGER\nEND TYPE\nDIM ZC AS ZT\nDIM ZD AS ZT\nDIM ZX%(2)\nDIM ZY%(2)\n";
+    const BODIES: [&str; 10] = [
+        "SELECT CASE ZC\nCASE ZD\n  PRINT 1\nEND SELECT\n",
+        "SELECT CASE ZC\nCASE ZC TO ZD\n  PRINT 1\nEND SELECT\n",
+        "SELECT CASE ZC\nCASE IS = ZD\n  PRINT 1\nEND SELECT\n",
+        "SELECT CASE ZC\nCASE ELSE\n  PRINT 1\nEND SELECT\n",
+        "IF ZC = ZD THEN PRINT 1\n",
+        "PRINT ZC = ZD\n",
+        "ZQ% = ZC < ZD\n",
+        "SELECT CASE ZX%\nCASE ZY%\n  PRINT 1\nEND SELECT\n",
+        "IF ZX% = ZY% THEN PRINT 1\n",
+        "WHILE ZC = ZD\nWEND\n",
+    ];
+    if sh.shard != 0 {
+        return;
+    }
+    for body in BODIES {
+        let text = format!("{}{}", HEAD, body);
+        sh.eval();
+        sh.journal(&text);
+        sh.class("soundness:record-or-array-on-both-sides");
+        sh.nontrivial(hash64(&text));
+        let inputs = json!({"kind": "soundness", "program": text});
+        let r = match impl_run::run_src(&text, &RunOpts::budget(300_000)) {
+            Err(FrontErr::Panic { stage, info }) => Err(Violation::new(format!("panic:{}:{}", stage, info.sig()), "the program made the parser/checker panic", inputs)),
+            Err(_) => Ok(()),
+            Ok(out) => match &out.end {
+                End::Err { code: Some(13), pos, .. } => Err(Violation::new("c12-type-mismatch-at-runtime", "accepted program raised Type mismatch (13)", inputs).exp_obs("no Type mismatch", json!(pos))),
+                End::Panic(p) if WRONG_KIND.iter().any(|w| p.msg.contains(w)) => Err(Violation::new(format!("c12-wrong-kind:{}", p.sig()), "wrong-kind failure", inputs)),
+                _ => Ok(()),
+            },
+        };
+        if !sh.report(r) {
+            return;
+        }
+    }
+}
+
 fn check_jump(text: &str, row: u32, same_scope: bool, inputs: Value) -> Result<(), Violation> {
     match impl_run::front(text) {
         Ok(_) if same_scope => Ok(()),
@@ -993,6 +1035,7 @@ impl Prop for C12 {
     fn run(&self, sh: &mut Shard) {
         placement_matrix(sh);
         duplicate_matrix(sh);
+        record_value_programs(sh);
         let n = sh.share(sh.tier.pick(8_000, 300_000));
         sh.search(1, n, 60, 600, |sh, tape| soundness_case(sh, tape));
         let n = sh.share(sh.tier.pick(6_000, 200_000));
